@@ -15,8 +15,18 @@ _T1 = ["vbi_roundtrip", "vbi_range", "vbi_canonical_length", "vbi_decode_consume
 _T2 = ["prop_table_facts", "props_roundtrip", "props_roundtrip_will", "props_reencode_stable", "props_unpack_total_and_bounded"]
 _T3 = ["decode_no_overread", "encode_decode", "decode_wf", "reencode_stable", "size_exact", "msg_size_exact'",
        "msg_size_exact_orig_violated", "alloc_proportional_violated", "alloc_proportional_partial"]
-THEOREMS = ["GmqttVerif.Codec." + t for t in _T1 + _T2 + _T3]
+# regenerated tie (Properties/C06Tables.lean over Generated/Codec.lean, rewritten from pkg/packets/properties.go on every run)
+_T4 = ["source_validProps_eq", "source_allowed_eq_model", "source_kindTable_eq", "source_switch_kinds", "source_dupcheck_fields",
+       "source_validators", "source_inline_cases", "source_loop_shape", "source_helpers", "source_will_cases", "source_pack_order",
+       "source_consts"]
+THEOREMS = ["GmqttVerif.Codec." + t for t in _T1 + _T2 + _T3 + _T4]
 COMPS = ["codec"]
+NEEDS_FACTS = ["Codec"]
+EXTRA_MODULES = ["GmqttVerif.Properties.C06Tables"]
+# (packet type number, property id) pairs the generator exercises first: filled from the model-side search
+# (oracle_codecfacts) when the regenerated tables differ from the model's
+PRIORITY = []
+FORCE = [None]
 
 # ------------------------------------------------------------------ independent codec: primitives
 
@@ -425,6 +435,8 @@ def gen_props(rng, table, chaos, want=None):
     ids = [i for i in allowed if rng.random() < rng.choice([0.0, 0.3, 0.6, 1.0])]
     if want:
         ids = sorted(set(ids) | set(want))
+    if FORCE[0] is not None:
+        ids.append(FORCE[0])
     if 0x16 in ids and 0x15 not in ids and rng.random() >= chaos:
         ids.append(0x15)
     if 0x0B in ids and table == "PUBLISH_OUT":
@@ -598,6 +610,15 @@ def hx(b):
 def gen_dec_op(rng):
     ver = rng.choice([3, 4, 4, 5, 5, 5])
     r = rng.random()
+    if PRIORITY and rng.random() < 0.3:
+        # an entry of the property tables on which source and model disagree: a v5 packet of that type carrying that property
+        t, pid = rng.choice(PRIORITY)
+        FORCE[0] = pid if pid in PTYPE else None
+        try:
+            data = gen_packet(rng, 5, TYPES[t - 1], 0.0)
+        finally:
+            FORCE[0] = None
+        return f"dec 5 {hx(data)}"
     if r < 0.06:
         data = bytes(rng.randrange(256) for _ in range(rng.choice([0, 1, 2, 3, 5, 9, 20, 60])))
         if rng.random() < 0.5 and len(data) > 1:
@@ -1021,10 +1042,61 @@ def streams(tier):
     return [(CodecStream("codec", "codec", gen, predicate, nontrivial, keep_prefix=0, timeout=to), n),
             (CodecStream("codec-alloc", "codec", gen_alloc, predicate, None, keep_prefix=0, timeout=to), na)]
 
-def run(r):
-    return core.standard_run(r, __import__(__name__, fromlist=["x"]))
+def facts_search(r, proof_ok):
+    """model-side search: oracle_codecfacts names every entry of the regenerated tables (Generated/Codec.lean) that differs
+    from the model's transcription; (type, property) entries seed the generator. Also keeps the expected fingerprints of
+    Model/Codec/SourceTie.lean honest (selfcheck)."""
+    rc, out = core.build_lean(["oracle_codecfacts"], r.log)
+    if rc != 0:
+        r.violation("codec-facts", "# oracle_codecfacts does not build (Generated/Codec.lean missing or of another shape)\n" + out[-2000:],
+                    False, "facts oracle failed")
+        return
+    rc, out = core.sh([core.oracle_exe("codecfacts")], timeout=120)
+    lines = [l for l in out.strip().split("\n") if l.strip()]
+    if rc == 0 and lines == ["tied"]:
+        if not proof_ok:
+            r.notes.append("regenerated codec facts agree with the model (the broken obligation is elsewhere)")
+        return
+    r.log("codec facts differ: " + " | ".join(lines[:12]))
+    for l in lines:
+        m = re.match(r"allowed type=(\d+) prop=(\d+) ", l)
+        if m and 1 <= int(m.group(1)) <= 15:
+            PRIORITY.append((int(m.group(1)), int(m.group(2))))
+        m = re.match(r"(?:kind|dupcheck|writer) prop=(\d+)", l)
+        if m:
+            PRIORITY.extend((t, int(m.group(1))) for t in (1, 2, 3, 8, 14, 15))
+    r.notes.append("regenerated codec facts differ from the model: " + "; ".join(lines[:20]))
+    body = ("# pkg/packets/properties.go no longer says what Model/Codec/PropTable.lean + Props.lean transcribe\n"
+            "# (theorems of Properties/C06Tables.lean); differing entries, from oracle_codecfacts:\n" + "\n".join(lines) + "\n")
+    r.violation("codec-facts", body, False, "regenerated property tables differ from the model")
 
-RULE = ("`keep` ops decode 2-6 packets, keep them alive while further packets are decoded/packed (pooled buffers reused) and only then "
+def run(r):
+    import sys
+    mod = sys.modules[__name__]
+    r.recognisers.update(getattr(mod, "RECOGNISERS", {}))
+    rc, out = core.build_go(r.log, ["extract"])
+    if rc == 0:
+        rc, out = core.extract_facts(r.log, NEEDS_FACTS)
+    if rc != 0:
+        r.violation("extract", "# fact extractor failed on /repo: the regenerated tie no longer checks\n" + out[-3000:], False,
+                    "extractor failed")
+    ok = r.prove(MODULE, THEOREMS, comps=COMPS, extra_modules=EXTRA_MODULES)
+    if rc == 0:
+        facts_search(r, ok)
+    if not ok:
+        core.build_lean(["oracle_codec"], r.log)      # the oracle does not depend on the property modules
+    rc, out = core.build_go(r.log, list(COMPS))
+    if rc != 0:
+        r.violation("go-build", "# harness does not build against /repo any more\n" + out[-3000:], False, "go build failed")
+        return r.finish(rule=RULE, assumptions=ASSUME)
+    for s, n in streams(r.tier):
+        r.correspond(s, n)
+    return r.finish(rule=RULE, assumptions=ASSUME)
+
+RULE = ("regenerated tie: harness/cmd/extract rewrites Generated/Codec.lean (ValidProperties, the switch of Properties.Unpack / "
+        "UnpackWillProperties case by case, the write order of Pack / PackWillProperties, helper bodies, constants) from "
+        "pkg/packets/*.go on every run and Properties/C06Tables.lean proves the model's tables equal to it; "
+        "`keep` ops decode 2-6 packets, keep them alive while further packets are decoded/packed (pooled buffers reused) and only then "
         "dump and re-encode all of them (aliasing of decoded fields); "
         "byte strings through Reader.ReadPacket (versions 3/4/5): Python-encoded packets of all 15 types with random property sets in "
         "random order, ~35% byte-level mutants (truncation, remaining length ±1/max/non-canonical, flags, length fields, inserted/deleted "
@@ -1033,7 +1105,9 @@ RULE = ("`keep` ops decode 2-6 packets, keep them alive while further packets ar
         "Each line is run by the real code and by the Lean model and compared; the predicate re-checks the property against an independent "
         "Python MQTT codec. non-trivial = a case with an accepted packet carrying ≥ 1 property or ≥ 2 topics, or a rejected input that got "
         "past the fixed header")
-ASSUME = ["bufio.Reader / bytes.Buffer / io.ReadFull behave as byte lists (Go standard library trusted)",
+ASSUME = ["the go/ast extractor reads properties.go by shape and fails (broken tie) on any other shape; texts are compared through FNV-1a-64 "
+          "fingerprints computed by the extractor, the expected fingerprints are recomputed from the expected texts on every run (selfcheck)",
+          "bufio.Reader / bytes.Buffer / io.ReadFull behave as byte lists (Go standard library trusted)",
           "unicode/utf8.DecodeRune is modelled from its Go source (table `first`/`acceptRanges`)",
           "heap behaviour is measured (runtime.MemStats around one ReadPacket), not proved",
           "the independent codec in vlib/props/c06.py is trusted as the reading of the MQTT 3.1.1/5 specifications"]
